@@ -434,10 +434,10 @@ func ScopeExit() []string {
 			inner += "f = " + v + "\n"
 			blk := "def b {\n" + inner + "}\n"
 			out = append(out,
-				blk+"print "+v,                                  // undefined afterwards
-				blk+"print true or "+v,                          // ... even in a skipped operand
-				"def o {\n"+v+" = 3\n"+blk+"g = "+v+"\n}",       // the outer block's field again
-				"def o {\n"+blk+v+" = 9000\n}",                  // a field assignment
+				blk+"print "+v,                            // undefined afterwards
+				blk+"print true or "+v,                    // ... even in a skipped operand
+				"def o {\n"+v+" = 3\n"+blk+"g = "+v+"\n}", // the outer block's field again
+				"def o {\n"+blk+v+" = 9000\n}",            // a field assignment
 				"def o {\n"+v+" = 1\n"+blk+"g = false and "+v+"\n}",
 				"var "+v+" = 70\n"+blk+"print "+v+"\n"+v+" = 71\nprint "+v, // the shadowed outer variable
 				"def o {\nvar "+v+" = 70\n"+blk+"g = "+v+"\n"+blk+"}",
